@@ -126,7 +126,8 @@ pub fn act_flashloan(sim: &mut Sim, ctx: &mut Ctx) -> Option<Tx> {
         }
         0 => {
             // end index pointing at itself / before / out of range / a non-end ix
-            let bad = *ctx.rng.pick(&[start_pos as u64, 0, 99, (start_pos + 1) as u64, u64::MAX]);
+            let n_ix = ixs.len() as u64;
+            let bad = *ctx.rng.pick(&[start_pos as u64, 0, 99, (start_pos + 1) as u64, u64::MAX, (1u64 << 16) + n_ix - 1, (1u64 << 32) + n_ix - 1, u16::MAX as u64, u32::MAX as u64]);
             ixs[start_pos] = ix::start_flashloan(ma, u.authority, bad);
             sim.stats.fault("tx_flashloan_bad_end_index");
         }
@@ -237,6 +238,13 @@ pub fn act_flashloan(sim: &mut Sim, ctx: &mut Ctx) -> Option<Tx> {
             ixs[pos + 1] = ix::start_flashloan(ma, u.authority, pos as u64);
             if ctx.rng.chance(1, 2) {
                 ixs.pop(); // no closing end at all
+            }
+            if ctx.rng.chance(1, 3) {
+                // ... and the start names that earlier end through an index that only matches it
+                // modulo 2^16 (or 2^32): far out of range, must be refused like any other
+                let wrap = *ctx.rng.pick(&[1u64 << 16, 3u64 << 16, 1u64 << 32, (1u64 << 32) + (1u64 << 16)]);
+                ixs[pos + 1] = ix::start_flashloan(ma, u.authority, wrap + pos as u64);
+                sim.stats.fault("tx_flashloan_end_index_wraps_to_earlier_end");
             }
             sim.stats.fault("tx_flashloan_end_before_start");
         }
